@@ -163,7 +163,9 @@ func c03(c *Ctx) {
 			r.fails = append(r.fails, Failure{Witness: "interp " + w, What: fmt.Sprintf("interp: original gives status %d stdout %q; formatted (%s) gives status %d stdout %q; formatted text: %q", o1.Status, clip(o1.Stdout), j.f.name, o2.Status, clip(o2.Stdout), clip(out))})
 		}
 		// bash does not take CR LF line ends (mvdan/sh accepts them on purpose): no bash verdict for such sources
-		if j.bash && j.lang == syntax.LangBash && !strings.Contains(j.src, "\r") {
+		// known finding C03-singleline-alias-same-line: SingleLine joins an alias definition and its use on one line
+		aliasJoin := j.f.name == "single" && (strings.Contains(j.src, "alias") || strings.Contains(j.src, "shopt")) // also C03-singleline-extglob-same-line
+		if j.bash && j.lang == syntax.LangBash && !strings.Contains(j.src, "\r") && !aliasJoin {
 			b1 := runShell(c, "bash", j.src)
 			b2 := runShell(c, "bash", out)
 			for retry := 0; retry < 2 && !c03Same(b1, b2); retry++ {
